@@ -54,6 +54,7 @@ type vQScenario struct {
 
 type vQOp struct {
 	kind    string
+	failed  bool // the server refused the call: its answer is an error and does not touch the cache
 	commit  chan struct{}
 	acked   chan struct{}
 	deliver chan struct{}
@@ -170,6 +171,7 @@ func (f *vQFake) RequestAndDecode(dst interface{}, method, path string, body io.
 			f.set("Cancelled")
 		default:
 			err = errors.New("verif: 422 invalid state transition")
+			op.failed = true
 		}
 		resp := f.record()
 		f.mu.Unlock()
@@ -270,8 +272,8 @@ func TestVerifC14Queue(t *testing.T) {
 					close(f.op.deliver)
 					if ok = wait(callDone); ok {
 						opState = "none"
-						if updOn {
-							updDirty = true
+						if updOn && !f.op.failed {
+							updDirty = true // updateWithResp put the container into dontupdate
 						}
 						obs("deliver", false, opLate)
 					}
